@@ -1,4 +1,47 @@
-import JV.Spec.Rfc8259
+/-
+  C01 — JSON text round-trip is lossless and canonical.
+
+  Proved here: the string-escaping core. Model JV.Model.JsonEscape = `escape_string` of
+  json_encoders.hpp (tied to the real function by the `jt esc` correspondence stream, including its
+  error behaviour on malformed UTF-8 and both option flags); Spec reader = JV.Spec.Rfc8259.parseChars
+  (the `char` production of RFC 8259 §7). With escape_all_non_ascii off, for EVERY byte string the
+  escaped text is read back by a strict RFC 8259 string reader as exactly the original bytes, under
+  either setting of escape_solidus.
+
+  Decided per case on the real code, not proved (see evidence): escape_all_non_ascii = true
+  (\uXXXX and surrogate-pair arithmetic; the model covers it and is tied, the read-back is judged by
+  the Lean reference reader on every generated string incl. U+FFFF/U+10000 boundaries), the compact
+  and pretty encoders' layout (pretty = compact + white space is checked textually for every option
+  record drawn), number printing (C04), and the full document round trip parse(dump v) = v,
+  dump(parse(dump v)) = dump v.
+-/
+import JV.Proofs.JsonEscape
 namespace JV.Props.C01
-theorem placeholder : True := trivial
+open JV Model Model.JsonEscape Spec.Rfc8259
+
+/-- every byte string is escaped to text that a strict RFC 8259 string reader reads back as the original
+    (escape_all_non_ascii = false, any escape_solidus; `e ++ "\"" ++ rest`: the reader stops at the closing quote) -/
+theorem escape_unescape (sol : Bool) (s : Bytes) :
+    ∃ e, escapeString false sol s = some e ∧
+      ∀ rest, parseChars (e.length + 1) (e ++ 34 :: rest) = some (s, rest) := by
+  obtain ⟨e, he, hr⟩ := escape_reads_back sol s s.length (Nat.le_refl _)
+  exact ⟨e, he, fun rest => hr rest (e.length + 1) (Nat.le_refl _)⟩
+
+/-- escaping never fails when escape_all_non_ascii is off (no UTF-8 decoding is attempted on bytes ≥ 0x80) -/
+theorem escape_total (sol : Bool) (s : Bytes) : (escapeString false sol s).isSome = true := by
+  obtain ⟨e, he, _⟩ := escape_unescape sol s
+  simp [he]
+
+/-- the four-digit form written for control characters decodes to the same code unit -/
+theorem u4_decodes (cp : Nat) (h : cp < 65536) (rest : Bytes) :
+    hex4 ((u4 cp).drop 2 ++ rest) = some (cp, rest) := by
+  simpa [u4] using hex4_u4 cp h rest
+
+/-! ### non-vacuity: every escape class at once -/
+example : escapeString false true [34, 92, 47, 8, 12, 10, 13, 9, 1, 127, 65, 195, 169] =
+    some [92, 34, 92, 92, 92, 47, 92, 98, 92, 102, 92, 110, 92, 114, 92, 116,
+          92, 117, 48, 48, 48, 49, 92, 117, 48, 48, 55, 70, 65, 195, 169] := by decide
+example : escapeString true false [240, 159, 152, 128] = some [92, 117, 68, 56, 51, 68, 92, 117, 68, 69, 48, 48] := by decide
+example : escapeString true false [195] = none := by decide
+
 end JV.Props.C01
